@@ -352,6 +352,36 @@ def check_reply(ctx, rng):
                 res['viol'].append(('reply-transmitted-after-deadline', 'reply after the lifetime elapsed was transmitted', w))
             if bool(ret) != bool(sent):
                 res['viol'].append((f'reply-return-untruthful:returned={ret!r},sent={bool(sent)}', f'reply returned {ret!r} although the packet was {"" if sent else "not "}sent', w))
+        # a handler that blocks (computes) past the lifetime without yielding to the loop and then replies: time has passed all the same
+        for L, over in ((50, 1), (50, 200), (1000, 5), (100, -20)):
+            seq += 1
+            name = [C(b'r'), rc.comp(8, str(seq).encode())]
+            out = {}
+
+            def blocking(n, p, reply, c, L=L, over=over, name=name):
+                S.loop._vt += (L + over) / 1000.0          # the clock moves on while the loop does not run
+                d_ = bytes(make_data(name, MetaInfo(), b'slow', DigestSha256Signer()))
+                n0_ = len(face.sent)
+                out['ret'] = reply(d_)
+                out['sent'] = len(face.sent) - n0_
+            the_app.detach_handler('/r')
+            the_app.attach_handler('/r', blocking)
+            await face.deliver(bytes(make_interest(name, InterestParam(lifetime=L, nonce=seq))))
+            for _ in range(3):
+                await asyncio.sleep(0)
+            the_app.detach_handler('/r')
+            the_app.attach_handler('/r', lambda n, p, reply, c: log.append((n, reply, c)))
+            ctx.event('reply-from-blocking-handler')
+            ctx.case(('reply-blocking', L, over), nontrivial=True)
+            wb = {'lifetime': L, 'handler_blocked_ms': L + over}
+            if 'ret' not in out:
+                res['viol'].append(('reply-handler-not-called', 'blocking handler not invoked', wb))
+            elif over > 0 and out['sent']:
+                res['viol'].append(('reply-transmitted-after-deadline:handler-blocked', 'a handler that blocked past the lifetime could still transmit its reply', wb))
+            elif over < 0 and not out['sent']:
+                res['viol'].append(('reply-not-transmitted-before-deadline', 'reply within the lifetime was not transmitted', wb))
+            elif bool(out['ret']) != bool(out['sent']):
+                res['viol'].append((f'reply-return-untruthful:returned={out["ret"]!r},sent={bool(out["sent"])}', 'reply return value does not say whether it was sent', wb))
         # replies after the face went down (inside the lifetime): nothing can be transmitted, so "sent" must not be reported
         pend = []
         for j in range(4):
@@ -386,9 +416,58 @@ def check_reply(ctx, rng):
         ctx.report('reply-background-error', f'{le.get("repr")}', None)
 
 
+def check_duplicate_routes(ctx, rng):
+    """route() declared twice for one prefix (in different representations) before connecting: the second declaration must not take
+    the prefix over - wherever the refusal surfaces (at the declaration or when main_loop attaches the routes)."""
+    from .c17 import Forwarder
+    for fe in ('v1', 'v2'):
+        for rep in range(ctx.n(6, 200)):
+            pre = rng.choice([p for p in PREFIXES if p])
+            log = []
+            res = {'errors': []}
+
+            async def main(S):
+                face = RecFace()
+                the_app = appv2.NDNApp(face=face) if fe == 'v2' else appv1.NDNApp(face=face, keychain=KeychainDigest())
+                Forwarder(face, fe, ['200'], ctx, rng, S)
+                for hid in (1, 2):
+                    form, fl = form_of(rng, pre)
+                    try:
+                        if fe == 'v2':
+                            the_app.route(form)(lambda n, p, reply, c, hid=hid: log.append(hid))
+                        else:
+                            the_app.route(form)(lambda n, p, a, hid=hid: log.append(hid))
+                    except Exception as e:   # noqa
+                        res['errors'].append(('declare', hid, type(e).__name__))
+
+                async def after():
+                    await asyncio.sleep(0.05)
+                    try:
+                        await face.deliver(bytes(make_interest(list(pre) + [C(b'q')], InterestParam(nonce=9, lifetime=1000))))
+                    except Exception as e:   # noqa
+                        res['errors'].append(('deliver', 0, type(e).__name__))
+                    await asyncio.sleep(0.05)
+                    the_app.shutdown()
+                aft = after()
+                try:
+                    await asyncio.wait_for(the_app.main_loop(aft), 30)
+                except Exception as e:   # noqa
+                    res['errors'].append(('main_loop', 0, type(e).__name__))
+                aft.close()
+            S = vtime.run(main)
+            ctx.event('duplicate-route-declaration')
+            ctx.case(('duplicate-route', fe, pre), nontrivial=True)
+            w = {'frontend': fe, 'prefix': [c.hex() for c in pre], 'refusal_seen': res['errors'], 'delivered_to': list(log)}
+            if 2 in log:
+                ctx.report(f'duplicate-attach-accepted:{fe}:route', 'a second route() declaration for an occupied prefix took the prefix over (its handler received the Interest)', w)
+            elif not res['errors'] and log == [1]:
+                ctx.report(f'duplicate-attach-not-refused:{fe}:route', 'a second route() declaration for an occupied prefix was silently ignored: it was not refused anywhere', w)
+
+
 def run(ctx):
     ctx.rule = RULE
     rng = ctx.rng
+    check_duplicate_routes(ctx, rng)
     kinds = ['v2', 'v1', 'dispatcher']
     # exhaustive: every subset of the 8-prefix tree x every Interest name
     subsets = list(itertools.chain.from_iterable(itertools.combinations(range(len(PREFIXES)), r) for r in range(len(PREFIXES) + 1)))
@@ -423,7 +502,8 @@ def run(ctx):
         run_history(ctx, rng, kind, ops, 'random')
     check_reply(ctx, rng)
     for k in ('attach', 'detach', 'duplicate-attach', 'interest-hit', 'interest-miss', 'reply-sent', 'reply-late', 'attach-with-delivery-options',
-              'reconnect-with-handlers-attached', 'register-without-handler-on-free-prefix'):
+              'reconnect-with-handlers-attached', 'register-without-handler-on-free-prefix', 'duplicate-route-declaration',
+              'reply-from-blocking-handler'):
         ctx.need_event(k)
     ctx.assumptions = ['detaching a never-attached prefix and handler exceptions are outside the statement',
                        'the reply clause is judged on the current front-end (the legacy one has no reply callback)']
